@@ -14,6 +14,7 @@ from ..engine.facts import dotted, const, src, walk_func, enclosing_stmt
 from . import skeletons as sk
 from . import c05  # def-emitter-siblings is registered for C17 there
 from . import c08  # identity-key is registered for C17 there
+from . import c06  # wiring (`local` is the template's own namespace) is registered for C17 there
 from .common import calls, stmt_nodes
 
 
@@ -69,7 +70,7 @@ def key_agreement(ctx):
     ctx.check(bool(c) and src(c[0].args[1]) == "name", "toplevel-name", db.where(c[0]) if c else db.where(wr), "top-level callables are not cached under their render_ name", "top-level: name")
 
 
-@rule("C17.wrapper-skeleton", min_instances=8)
+@rule("C17.wrapper-skeleton", min_instances=4)
 def wrapper_skeleton(ctx):
     """the cache wrapper saves the original before redefining the name and calls _ctx_get_or_create(key, lambda: original(args), context, ..., __M_defname=name) exactly once"""
     db = ctx.db
@@ -133,11 +134,25 @@ def arg_precedence(ctx):
     """page cache_* arguments are overridden by the section's own; Template cache_args by call keywords; timeout -> int; context only when the implementation asks"""
     db = ctx.db
     wc = db.func("codegen._GenerateRenderMethod.write_cache_decorator")
-    ups = [c for c in calls(wc, "cache_args.update")]
-    ctx.require(len(ups) >= 2, "write_cache_decorator: the two cache_args.update calls not found")
-    first, second = ups[0], ups[1]
-    ctx.check("self.compiler.pagetag.parsed_attributes" in src(first) and "node_or_pagetag.parsed_attributes" in src(second) and "self.compiler.pagetag" not in src(second), "page-then-own", db.where(second),
-              "cache arguments are merged in the wrong order (the section's own must override <%page>'s)", "page cache_* first, section's own second")
+    # every statement that feeds cache_args, in source order, classified by where it reads from
+    feeds = []
+    for s_ in walk_func(wc):
+        tgt = None
+        if isinstance(s_, ast.Assign) and src(s_.targets[0]) == "cache_args":
+            tgt = s_.value
+        elif isinstance(s_, ast.Expr) and isinstance(s_.value, ast.Call) and dotted(s_.value.func) in ("cache_args.update", "cache_args.setdefault"):
+            tgt = s_.value
+        if tgt is None:
+            continue
+        t_ = src(tgt)
+        kind = "page" if "self.compiler.pagetag.parsed_attributes" in t_ else "own" if "node_or_pagetag.parsed_attributes" in t_ else None
+        if kind:
+            feeds.append((s_.lineno, kind, s_, "setdefault" in t_))
+    feeds.sort(key=lambda f: f[0])
+    kinds = [k for _, k, _, _ in feeds]
+    ctx.check(kinds == ["page", "own"] and not feeds[1][3], "page-then-own", db.where(feeds[-1][2]) if feeds else db.where(wc),
+              "cache arguments are merged in the order %s: the section's own cache_* attributes must be applied last so that they override <%%page>'s" % kinds, "page cache_* first, section's own second")
+    ups = [f[2] for f in feeds]
     for u in ups[:2]:
         t = src(u)
         ctx.check("startswith('cache_')" in t and "!= 'cache_key'" in t and "[6:]" in t, "filter:%d" % u.lineno, db.where(u), "cache_* attribute selection changed: %s" % t, "cache_* minus cache_key, prefix stripped")
